@@ -109,7 +109,7 @@ def tlc_stats(out):
             'queue': int(m.group(3)) if m else 0, 'depth': int(d.group(1)) if d else 0}
 
 
-_COV = re.compile(r'^<(\w+) line (\d+), col \d+ to line \d+, col \d+ of module (\w+)>: (\d+):(\d+)', re.M)
+_COV = re.compile(r'^<(\w+) line (\d+), col \d+ to line \d+, col \d+ of module (\w+)(?: \([\d ]+\))?>: (\d+):(\d+)', re.M)
 
 
 def tlc_action_coverage(out):
@@ -140,7 +140,7 @@ def model_check(module, cfg, env=None, workers=NCPU, timeout=1800, expect_action
 
 
 def _eval_chunk(args):
-    module, recs, env, idx, timeout = args
+    module, recs, env, idx, timeout, cfg = args
     d = tempfile.mkdtemp(prefix='eval_', dir=scratch())
     fin = os.path.join(d, 'in.ndjson')
     fout = os.path.join(d, 'out.ndjson')
@@ -149,7 +149,7 @@ def _eval_chunk(args):
             f.write(json.dumps(r, separators=(',', ':')) + '\n')
     e = {'IN_FILE': fin, 'OUT_FILE': fout}
     e.update(env or {})
-    rc, out = run_tlc(module, 'Eval.cfg', env=e, workers=1, timeout=timeout, jvm=('-Xmx3g', '-Xss64m'))
+    rc, out = run_tlc(module, cfg, env=e, workers=1, timeout=timeout, jvm=('-Xmx3g', '-Xss64m'))
     if rc != 0 or not os.path.exists(fout):
         raise MachineryError('TLC evaluation of %s failed (rc=%s):\n%s' % (module, rc, out[-4000:]))
     res = []
@@ -164,7 +164,7 @@ def _eval_chunk(args):
     return res
 
 
-def tlc_eval(module, recs, env=None, chunk=None, procs=NCPU, timeout=1800):
+def tlc_eval(module, recs, env=None, chunk=None, procs=NCPU, timeout=1800, cfg='Eval.cfg'):
     """Have TLC evaluate `Out(rec)` of spec/<module>.tla (an *Eval module: reads IOEnv.IN_FILE as ndjson, writes one
     JSON value per record to IOEnv.OUT_FILE) for every record; records are spread over parallel TLC processes.
     An empty record list is answered without starting TLC."""
@@ -173,7 +173,7 @@ def tlc_eval(module, recs, env=None, chunk=None, procs=NCPU, timeout=1800):
         return []
     if chunk is None:
         chunk = max(1, (len(recs) + procs - 1) // procs)
-    jobs = [(module, recs[i:i + chunk], env, k, timeout) for k, i in enumerate(range(0, len(recs), chunk))]
+    jobs = [(module, recs[i:i + chunk], env, k, timeout, cfg) for k, i in enumerate(range(0, len(recs), chunk))]
     out = []
     with ThreadPoolExecutor(max_workers=procs) as ex:
         for r in ex.map(_eval_chunk, jobs):
@@ -315,3 +315,44 @@ def blist(b):
 
 def unblist(l):
     return bytes(l)
+
+
+# ---------------------------------------------------------------------------------------------
+# parallel drivers (fresh interpreter per worker, each with its own bitcoinlib data directory)
+# ---------------------------------------------------------------------------------------------
+
+def _worker_init(config_ini, extra_env):
+    import tempfile as _t
+    global _scratch
+    _scratch = None
+    os.environ.update(extra_env or {})
+    d = os.path.join(scratch(), 'bcl_%d' % os.getpid())
+    os.makedirs(d, exist_ok=True)
+    if config_ini:
+        with open(os.path.join(d, 'config.ini'), 'w') as f:
+            f.write(config_ini)
+    fresh_bitcoinlib_env()
+
+
+def pmap(func, jobs, procs=NCPU, config_ini=None, extra_env=None, chunksize=1):
+    """Run func(job) for every job in freshly spawned worker processes (bitcoinlib imported from REPO with a private
+    data directory per worker; optional config.ini content). Results in job order."""
+    import multiprocessing as mp
+    jobs = list(jobs)
+    if not jobs:
+        return []
+    ctx = mp.get_context('spawn')
+    procs = max(1, min(procs, len(jobs)))
+    with ctx.Pool(procs, initializer=_worker_init, initargs=(config_ini, extra_env)) as pool:
+        return pool.map(func, jobs, chunksize)
+
+
+def tlc_printed(out, tag):
+    """JSON payloads of lines  <<"TAG", "<json>">>  printed by PrintT."""
+    res = []
+    pre = '<<"%s", "' % tag
+    for line in out.splitlines():
+        if line.startswith(pre) and line.endswith('">>'):
+            inner = line[len(pre):-3]
+            res.append(json.loads(json.loads('"' + inner + '"')))
+    return res
